@@ -37,7 +37,7 @@ def stable_ok(wt):
 
 def main():
     pid = sys.argv[1]
-    wt = f"/tmp/mut/{pid}"
+    wt = os.path.join(os.environ.get("MUT_BASE", "/tmp/mut"), pid)
     mdir = os.path.join(wt, "MUTATION")
     res = {"property": pid, "worktree": wt}
     st = subprocess.run(["git", "-C", wt, "status", "--porcelain", "--untracked-files=no"], capture_output=True, text=True).stdout.strip()
